@@ -63,6 +63,12 @@ func (rm *ResponseManager) processRequests(p peer.ID, requests []gsmsg.GraphSync
 	defer messageSpan.End()
 
 	for _, request := range requests {
+		// request IDs are chosen by requestors: a message may only act on a response
+		// that is being served to the peer that sent the message
+		if existing, ok := rm.inProgressResponses[request.ID()]; ok && existing.peer != p {
+			log.Warnf("ignoring %s request from peer %s for request ID %s in use by peer %s", request.Type(), p, request.ID().String(), existing.peer)
+			continue
+		}
 		switch request.Type() {
 		case graphsync.RequestTypeCancel:
 			_ = rm.abortRequest(ctx, request.ID(), ipldutil.ContextCancelError{})
